@@ -27,7 +27,7 @@ ASSUMPTIONS = ['a window end that coincides with a tabulated wavelength may go e
                'an empty window (no wavelength strictly inside) is outside the quantifier and not generated',
                'requested wavelengths exactly half-way between two tabulated ones are not generated']
 PROBES = ['window_end_on_node_included', 'window_end_on_node_excluded', 'single_wavelength_window', 'default_window', 'chunk_size_1',
-          'chunk_smaller_than_window', 'multi_aperture', 'cube_slice_checked', 'cube_memmap', 'cube_request_between', 'cube_request_outside', 'prelude_epoch', 'rerun_over_leftovers', 'memory_limit_as_i32', 'memory_limit_as_f32', 'memory_limit_as_int', 'memory_limit_as_i64', 'memory_limit_as_f64']
+          'chunk_smaller_than_window', 'multi_aperture', 'cube_slice_checked', 'cube_memmap', 'cube_request_between', 'cube_request_outside', 'prelude_epoch', 'rerun_over_leftovers', 'memory_limit_as_i32', 'memory_limit_as_f32', 'memory_limit_as_int', 'memory_limit_as_i64', 'memory_limit_as_f64', 'cube_named_band_among_wavelengths']
 
 
 def budgets(tier):
@@ -82,6 +82,8 @@ def generate(rng, tier, idx):
             cube['requests'].append(['outside', rng.choice([0, n - 1]), 0.0])
     cube['source_seed'] = rng.randrange(1 << 30)
     cube['wav_unit'] = rng.choice(['micron', 'micron', 'Angstrom', 'nm', 'mm', 'm'])
+    # the filter list of the cube fit may also hold an ordinary named band, before, between or after the wavelengths
+    cube['named_at'] = rng.randrange(len(cube['requests']) + 1) if rng.random() < 0.4 else None
     sc['cube'] = cube if rng.random() < 0.6 else None
     if rng.random() < 0.3:
         from ..author import prelude_spec
@@ -280,9 +282,18 @@ def _cube_part(sc, cube, sim, out, W, trace):
     if cube['memmap']:
         out.probe('cube_memmap')
     rng = random.Random(cube['source_seed'])
-    s = gen_source(rng, len(req), 'src', flags=(1,), min_fit=1)
     wunit = u.Unit(cube.get('wav_unit', 'micron'))
-    r = pipe.call(pipe.Fitter, [(x * u.micron).to(wunit) for x in req], [3.0] * len(req) * u.arcsec, d2, extinction_law=W.extinction(), av_range=[0., 0.],
+    flist = [(x * u.micron).to(wunit) for x in req]
+    pos_of = list(range(len(req)))              # position of each wavelength request in the filter list
+    if cube.get('named_at') is not None and W.fspec:
+        rcv = pipe.call(pipe.convolve_model_dir, d2, W.filters(subset=[0]))
+        if rcv[0] == 'ok':
+            at = min(cube['named_at'], len(flist))
+            flist.insert(at, W.fspec[0]['name'])
+            pos_of = [p_ if p_ < at else p_ + 1 for p_ in pos_of]
+            out.probe('cube_named_band_among_wavelengths')
+    s = gen_source(rng, len(flist), 'src', flags=(1,), min_fit=1)
+    r = pipe.call(pipe.Fitter, flist, [3.0] * len(flist) * u.arcsec, d2, extinction_law=W.extinction(), av_range=[0., 0.],
                   distance_range=[1., 2.] * u.kpc, use_memmap=cube['memmap'])
     if r[0] == 'ok':
         r = pipe.call(r[1].fit, make_source(s))
@@ -297,7 +308,7 @@ def _cube_part(sc, cube, sim, out, W, trace):
         for j, jn in enumerate(near):
             out.compared('cube-slice')
             out.probe('cube_slice_checked')
-            got = mf[row, j] + 2 * scl[row]
+            got = mf[row, pos_of[j]] + 2 * scl[row]
             want = np.log10(val[i, 0, jn])
             # float32 model store: the flux is rounded to float32 (<= 2^-24 relative) and its log10 is taken in float32
             tol = (2.0 ** -22 * max(1.0, abs(want)) + 3e-8) if cube['memmap'] else 1e-12
@@ -318,6 +329,8 @@ def lowerings(sc, viol=None):
         if len(c['requests']) > 2:
             for i in range(len(c['requests'])):
                 yield dict(sc, cube=dict(c, requests=c['requests'][:i] + c['requests'][i + 1:]))
+        if c.get('named_at') is not None:
+            yield dict(sc, cube=dict(c, named_at=None))
         for key, val in (('memmap', False), ('asc', False), ('n_ap', 1)):
             if c[key] != val:
                 yield dict(sc, cube=dict(c, **{key: val}))
